@@ -232,6 +232,7 @@ def handleSearch : Handler := fun st op args =>
   | "eqclaim", [a, b] => some (st, if a == b then "1" else "0")
   -- claims of C04 (the harness prints what the real engine did; the model side is the claim itself)
   | "c04", _ => some (st, "legal pvok")
+  | "c04mem", _ => some (st, "legal")
   | "c04s", _ :: name :: _ => some (st, if (slotGet st name).isSome then "legal pvok" else "bad-slot")
   | "slegalmem", [ptok, mtok] =>
     some (st, withPos ptok fun p =>
